@@ -711,6 +711,10 @@ def build_rt():
     uuid = add_def("UUID", {"type": "string", "minLength": 1})
     add_rt_case("roundtrip", "a definition named UUID referenced from property, items and map values", "RtNode", {"type": "object", "properties": {
         "id": uuid, "children": {"type": "array", "items": uuid}, "byName": {"type": "object", "additionalProperties": uuid}}})
+    add_rt_case("roundtrip", "required / counted arrays whose items are maps or free-form", "RtArrMaps", {"type": "object", "required": ["records"], "properties": {
+        "records": {"type": "array", "minItems": 1, "maxItems": 3, "uniqueItems": True, "items": {"type": "object", "additionalProperties": {"type": "string"}}},
+        "payloads": {"type": "array", "maxItems": 2, "items": {}},
+        "counters": {"type": "array", "minItems": 1, "items": {"type": "object", "additionalProperties": {"type": "integer", "format": "int64"}}}}})
     add_rt_case("roundtrip", "bounds on properties of every numeric type", "RtBounds", {"type": "object", "properties": {
         "a": {"type": "integer", "format": "int32", "minimum": -5, "maximum": 5, "exclusiveMaximum": True},
         "b": {"type": "number", "format": "float", "minimum": 0.5, "exclusiveMinimum": True},
